@@ -375,6 +375,19 @@ func catalogue() []entry {
 				// evaluation orders round differently: a memo that treats (a,b) and
 				// (b,a), or k and n-k, as one key answers by whoever came first)
 				m1, m2, m3, m4 := mathx.BetaInc(xb, sa, sb), mathx.Beta(sa, sb), mathx.Lchoose(n, k), mathx.Choose(n, k)
+				// (first other arguments, so that a small memo has forgotten the original
+				// question and computes the mirrored one afresh: one other key evicts a
+				// one-entry memo, seventy evict a table of 64)
+				evict := 1
+				if (n+k)%3 == 0 {
+					evict = 70
+				}
+				for j := 1; j <= evict; j++ {
+					mathx.BetaInc(xb, sa+0.25*float64(j)+0.125, sb+1.75)
+					mathx.Beta(sa+0.25*float64(j)+0.125, sb+1.75)
+					mathx.Lchoose(n+j, k)
+					mathx.Choose(n+j, k)
+				}
 				mathx.BetaInc(xb, sb, sa)
 				mathx.BetaInc(1-xb, sb, sa)
 				mathx.Beta(sb, sa)
